@@ -84,6 +84,25 @@ func c03Build(members []string, sep, placement string) (tpl string, want []strin
 				want = append(want, id)
 			}
 			sawElse = true
+		case "EL": // a v-else member that is itself a loop (two instances when its branch is taken)
+			if !inChain || sawElse {
+				defined = false
+			}
+			attr = ` v-else v-for="q in two"`
+			if inChain && !taken {
+				taken = true
+				want = append(want, id, id)
+			}
+			sawElse = true
+		case "EIL": // a truthy v-else-if member that is itself a loop
+			if !inChain || sawElse || afterFor {
+				defined = false
+			}
+			attr = ` v-else-if="t" v-for="q in two"`
+			if inChain && !taken {
+				taken = true
+				want = append(want, id, id)
+			}
 		}
 		if placement == "tmpl" {
 			parts = append(parts, fmt.Sprintf(`<template%s><i id="%s">%s</i></template>`, attr, id, id))
@@ -280,7 +299,7 @@ func init() {
 	core.Register(&core.Check{
 		ID:    "C03",
 		Level: "exploration",
-		Rule: "chain part: every sibling list up to the bound over {plain, v-if(T/F), v-else-if(T/F), v-else, v-for over an empty / one-element list} x separators {none, whitespace, comment, both} x placements {top, div, v-for x2, <template> members, nested in a taken branch, deep}; oracle: reference chain evaluator gives the ordered marker list. " +
+		Rule: "chain part: every sibling list up to the bound over {plain, v-if(T/F), v-else-if(T/F), v-else, v-for over an empty / one-element list, v-else / v-else-if members that are themselves loops} x separators {none, whitespace, comment, both} x placements {top, div, v-for x2, <template> members, nested in a taken branch, deep}; oracle: reference chain evaluator gives the ordered marker list. " +
 			"truth part: 46 Go values x 3 ways of reaching them x 6 consumers (v-if, v-else-if, !x, v-show, :attr, :class object); oracles: documented table and agreement between consumers. non-trivial = chain of >=2 members with defined semantics, or any truth case",
 		Bounds:      map[string]string{"quick": "sibling lists of length <= 5", "thorough": "sibling lists of length <= 6"},
 		Assumptions: []string{"what an orphan v-else/v-else-if renders, and members after a v-else, are unconstrained (only plain siblings are checked there)", "typed nil pointers, NaN and the string \"false\" are checked for uniformity only"},
@@ -294,7 +313,7 @@ func init() {
 					emit(&c03Case{Part: "truth", Val: tv.Name, Reach: r})
 				}
 			}
-			opts := []string{"P", "I+", "I-", "EI+", "EI-", "E", "F-", "F+"}
+			opts := []string{"P", "I+", "I-", "EI+", "EI-", "E", "F-", "F+", "EL", "EIL"}
 			max := 5
 			if tier == "thorough" {
 				max = 6
